@@ -299,3 +299,5 @@ def run(tier="quick", replay=None):
                     "If every node is homogeneous the scaling law holds for all inputs. Plus a name-based signature/table "
                     "contradiction rule on all units.",
         assumptions=["numeric literals are dimensionless", "branch thresholds compare but do not compute"])
+from .. import refs as _refs13
+RULES = RULES + [_refs13.ref_rule('C13')]
